@@ -398,3 +398,4 @@ class C18(Base):
 
 
 P = C18()
+P.RULE = P.RULE + " Every `ask` on a held handle also makes the synchronous request: a set created in sync mode answers it, a set created in async mode refuses it, whatever the localization's mode is by then."
